@@ -31,9 +31,9 @@ def compute_attrs(attrs: "Attributes", value: Attrs | None) -> Attrs:
     built = {}
     for name in attrs:
         given = None
-        if value:
-            given = value.get(name)
-        if given is None:
+        if value and name in value:
+            given = value[name]
+        else:
             attr = attrs[name]
             if attr.has_default:
                 given = attr.default
